@@ -245,8 +245,8 @@ namespace cds { namespace intrusive {
                             nodeSize = arrayNodeSize;
                         }
                         else if ( slot.bits() == base_class::flag_array_converting ) {
-                            // the slot is converting to array node right now - skip the node
-                            ++idx;
+                            // the slot is converting to array node right now: re-read it until the conversion completes,
+                            // otherwise the item that is being moved to the new array node would be skipped
                         }
                         else {
                             if ( slot.ptr()) {
@@ -303,8 +303,8 @@ namespace cds { namespace intrusive {
                             idx = nodeSize - 1;
                         }
                         else if ( slot.bits() == base_class::flag_array_converting ) {
-                            // the slot is converting to array node right now - skip the node
-                            --idx;
+                            // the slot is converting to array node right now: re-read it until the conversion completes,
+                            // otherwise the item that is being moved to the new array node would be skipped
                         }
                         else {
                             if ( slot.ptr()) {
